@@ -44,6 +44,7 @@ def _work(args):
         out["abstractions"] = sorted(eng.abstractions)
         out["trusted"] = sorted(eng.trusted_used)
         out["inlined"] = sorted(eng.inlined)
+        out["applied"] = sorted(eng.applied)
         out["stats"] = dict(solve.STATS)
         for r in res:
             out["results"].append({
@@ -73,8 +74,27 @@ def run_property(pid, tier="quick", repo_root=None, jobs=None):
     findings = load_findings()
     lines = []
     errors = []
-    with mp.get_context("fork").Pool(min(jobs or 16, max(1, len(keys)))) as pool:
-        outs = pool.map(_work, [(k, repo_root) for k in keys], chunksize=1)
+    own = set(keys)
+    outs = []
+    done = set()
+    assumed_loky = set()
+    todo = list(keys)
+    with mp.get_context("fork").Pool(jobs or 16) as pool:
+        while todo:
+            batch = pool.map(_work, [(k, repo_root) for k in todo], chunksize=1)
+            done |= set(todo)
+            outs += batch
+            nxt = set()
+            for o in batch:
+                for k in o.get("applied", []):
+                    cc = schema.contracts.get(k)
+                    if cc is None or k in done:
+                        continue
+                    if getattr(cc, "trusted_summary", False):
+                        assumed_loky.add(k)
+                        continue
+                    nxt.add(k)
+            todo = sorted(nxt)
     # ---- structural obligations and lemmas (run in-process, cheap)
     extra = []
     for fn in info.get("extra", []):
@@ -109,7 +129,7 @@ def run_property(pid, tier="quick", repo_root=None, jobs=None):
         assumptions |= set(c.assumes_)
         for r in o["results"]:
             props = r["props"] or c.props
-            if pid not in props:
+            if o["key"] in own and pid not in props:
                 continue
             if r["kind"] == "guard":
                 guards.append(r)
@@ -210,6 +230,8 @@ def run_property(pid, tier="quick", repo_root=None, jobs=None):
                  "T-solvers: z3 5.1.0 in-process; cvc5 1.0.3 / z3 4.8.12 for unknowns"] +
                 [f"trusted external {k}: {v}" for k, v in ext_cites.items()]),
             "functions_under_contract": funcs,
+            "support_functions_verified_in_this_run": sorted(set(f["function"] for f in funcs) - own),
+            "assumed_contracts_on_loky_functions_not_verified": sorted(assumed_loky),
             "obligations_by_backend": by_backend,
             "solver_time_s": round(solver_time, 3),
             "max_vc_s": round(max_vc, 3),
